@@ -679,7 +679,12 @@ class CellsImpl(*_cells_impl_base):
             self.altfunc = CellsBoundFunction(self)
 
     def on_namespace_change(self):
-        self.clear_all_values(clear_input=False)
+        if self.is_cached:
+            self.clear_all_values(clear_input=False)
+        else:
+            # Uncached cells hold no values, but values calculated
+            # through them must still be cleared.
+            self.model.clear_obj(self)
 
     # ----------------------------------------------------------------------
     # repr methods
